@@ -207,6 +207,10 @@ package comp
 //@   ensures forall i, k :: result1 && 0 <= i && i < len(old(c.lines)) && covers(old(c.lines[i]), addr) && (forall j :: 0 <= j && j < i ==> !covers(old(c.lines[j]), addr)) && i < k && k < len(c.lines) ==> c.lines[k] == old(c.lines[k])
 //@   ensures len(c.lines) == len(old(c.lines))
 //@   ensures wfCache(c)
+//@   -- no line is lost: whatever was covered still is
+//@   -- there is a first covering line (the one that moved), and no line is lost
+//@   ensures result1 ==> (exists i :: 0 <= i && i < len(old(c.lines)) && covers(old(c.lines[i]), addr) && (forall j :: 0 <= j && j < i ==> !covers(old(c.lines[j]), addr)))
+//@   ensures forall i, m :: result1 && 0 <= i && i < len(old(c.lines)) && covers(old(c.lines[i]), addr) && (forall j :: 0 <= j && j < i ==> !covers(old(c.lines[j]), addr)) && 0 <= m && m < len(old(c.lines)) ==> c.lines[m == i ? 0 : (m < i ? m + 1 : m)] == old(c.lines[m])
 //@   assigns c.lines
 //@   loop 0: invariant c.lines == old(c.lines)
 //@   loop 0: invariant forall j :: 0 <= j && j < _idx0 ==> !covers(c.lines[j], addr)
@@ -434,6 +438,26 @@ package comp
 //@ func (*Queue).Length
 //@   trusted
 //@   ensures result >= 0
+//@   assigns nothing
+//@ func (*Queue).IsFull
+//@   trusted
+//@   requires q != nil
+//@   assigns nothing
+//@ func (*Queue).Push
+//@   trusted
+//@   requires q != nil
+//@   assigns nothing
+//@ func (*Queue).Iterator
+//@   trusted
+//@   requires q != nil
+//@   assigns nothing
+//@ func (*Queue).Value
+//@   trusted
+//@   requires q != nil && elem != nil
+//@   assigns nothing
+//@ func (*Queue).Remove
+//@   trusted
+//@   requires q != nil && elem != nil
 //@   assigns nothing
 
 //@ spec func disjointLines(c *LRUCache) bool = forall i, j :: 0 <= i && i < j && j < len(c.lines) ==> int32(c.lines[i].Boundary[1]) <= int32(c.lines[j].Boundary[0]) || int32(c.lines[j].Boundary[1]) <= int32(c.lines[i].Boundary[0])
